@@ -137,6 +137,7 @@ def main():
     known = load_known()
     known_sigs = {(k["property"], k["signature"]) for k in known if k.get("status") == "known"}
     seen_known = set()
+    by_sig = {}
     for f in res["failures"]:
         sig = f.get("signature", "unclassified")
         if (pid, sig) in known_sigs:
@@ -145,6 +146,16 @@ def main():
                 what = next(k["what"] for k in known if k["property"] == pid and k["signature"] == sig)
                 known_lines.append("KNOWN-FINDING: property=%s %s [%s]" % (pid, what, sig))
             continue
+        # one report per cause signature: the failing history with the fewest events
+        if sig not in by_sig or len(f.get("events") or []) < len(by_sig[sig].get("events") or []):
+            by_sig[sig] = f
+    cov["unknown_failures"] = {sig: sum(1 for f in res["failures"] if f.get("signature") == sig) for sig in by_sig}
+    for sig, f in sorted(by_sig.items())[:6]:
+        if f.get("events") and f.get("config") and "binary" in ctx:
+            try:
+                f = props.shrink_failure(ctx["binary"], pid, f)
+            except Exception:
+                pass
         path = write_replay(pid, "impl-violation", f)
         violations.append((path, True, sig))
     flagged_divs = [d for d in res["divergences"] if d.get("component") in spec["components"] or d.get("kind") == "broken"]
